@@ -15,12 +15,28 @@ def check(F, rep):
     rep.undecided("Duration arithmetic (integer division by 3 before doubling rounds down by < 3 ns), Instant ordering, BTreeMap/Watchable semantics")
     f = get_fn(F, rep, FN)
     du = defuse(f)
+    # the working variables by role (type + how they are fed), not by name
     var = {}
+    RLT = "iroh::net_report::report::RelayLatencies"
     for n, pl in f.vars:
-        if not pl.get("p") and n not in var:
-            var[n] = pl["l"]
+        if pl.get("p"):
+            continue
+        l = pl["l"]
+        ty = str(f.locals[l])
+        if ty == RLT:
+            var.setdefault("best_recent", l)
+        elif re.match(r"^core::option::Option<.*RelayUrl>$", ty) and any(call_matches(t, r"Clone::clone_from$") and arg_ref_target(f, t["args"][0]) == l for b, t in f.calls()):
+            var.setdefault("prev_relay", l)
+        elif ty == "core::time::Duration":
+            ws = [s_["rv"] for b_, i_, s_ in f.stmts() if s_["k"] == "a" and s_["lhs"] == {"l": l} and s_["rv"]["k"] == "use" and s_["rv"]["o"]["k"] in ("copy", "move")]
+            for rv in ws:
+                x = copy_sources(f, op_base(rv["o"]))
+                if x and all(y[0] == "call" and y[1] == RL + "::get" for y in x):
+                    var.setdefault("best_any", l)
+                elif x and all(y[0] == "call" and y[1].endswith("Iterator::next") and tuple(y[2])[-1:] == ("2",) for y in x):
+                    var.setdefault("old_relay_cur_latency", l)
     need = ("prev_relay", "best_recent", "best_any", "old_relay_cur_latency")
-    rep.ob("anchor", all(n in var for n in need), site(f), "locals %s found" % (need,), skey(F, f, "locals"))
+    rep.ob("anchor", all(n in var for n in need), site(f), "working variables found by role: %s" % {k: "_%d" % v for k, v in var.items()}, skey(F, f, "locals"))
     if not all(n in var for n in need):
         return
     prev, best_recent, best_any, old = (var[n] for n in need)
